@@ -65,6 +65,14 @@ def run(ctx):
         ofail.append((l, "SL " + rec[3:][:3000], "DetailedPlacer::runShiftsOnCells driven directly: the x wirelength rose: " + why))
     for l, what, why in cres["crash"][:2] + dres["crash"][:2]:
         ofail.append((l, what, why))
+    # composition (DetailedValue.v): Circuit::hpwl of every EXPOSED circuit = value() and monotone inside the F8 scope; the paired
+    # model (structure + both net models) against the C++ op by op (same, cached, dopt run)
+    from checks import c05_compose as cc
+    e1 = cc.run_compose(ctx, nd, seed=s + 40)
+    e2 = cc.run_paired(ctx, nd, seed=s + 40)
+    for x in e1["mono_fail"][:2]:
+        ofail.append((x[0], str(x[1])[:2000], "DetailedPlacer driven directly: Circuit::hpwl of an exposed circuit rose between two exposed states although no polarised cell "
+                                               "changed orientation (outside known finding F8): " + str(x[2] if len(x) > 2 else "")))
     for l, i, why in ofail[:3]:
         ctx.violation("/repo violates C05: " + why, {"case": l, "implementation_output": i, "why": why,
                                                      "format": "see harness/detailed.cpp (DP) / harness/dopt.cpp (DO)"})
@@ -93,6 +101,20 @@ def run(ctx):
         if lp[key]:
             broken.append((what + " (%d of %d calls)" % (len(lp[key]), lp["records"]),
                            {"broken": thm, "first_difference": {"case": lp[key][0][0], "record": lp[key][0][1][:3000], "detail": lp[key][0][2]}}))
+    if e1["value_mismatch"]:
+        x = e1["value_mismatch"][0]
+        broken.append(("Circuit::hpwl of an exposed circuit differs from DetailedPlacer::value() inside the F8 scope (%d states)" % len(e1["value_mismatch"]),
+                       {"broken": "c05_exposed_hpwl_is_value (coupling of the row structure and the two net models, coq/DetailedValue.v)",
+                        "first_difference": {"case": x[0], "detail": str(x[1:])[:2000]}}))
+    if e2["mismatch"]:
+        x = e2["mismatch"][0]
+        broken.append(("correspondence DetailedValue.v paired model <-> DetailedPlacer (structure + net models + export after every best-move op) broken (%d runs differ)" % len(e2["mismatch"]),
+                       {"broken": "correspondence of coq/DetailedValue.v pbest / init_models / write_back (theorems c05_coupling_*, c05_exposed_wirelength_never_increases)",
+                        "first_difference": {"case": x[0], "detail": str(x[1:])[:2000]}}))
+    if e1["driver_fail"] or e2["driver_fail"]:
+        x = (e1["driver_fail"] + e2["driver_fail"])[0]
+        broken.append(("the composition tie could not be evaluated (%d cases)" % (len(e1["driver_fail"]) + len(e2["driver_fail"])),
+                       {"broken": "composition tie (checks/c05_compose.py, ocaml/driver_value.ml)", "first_difference": {"case": x[0], "detail": str(x[1:])[:1500]}}))
     if not proof_ok:
         broken.append(("proof obligations of Properties_C05.v do not check", {"broken": "Properties_C05.v", "detail": proof}))
     if not ofail:
@@ -102,6 +124,7 @@ def run(ctx):
     cov.update({"trusted_base": common.TRUSTED_BASE + ["lemon NetworkSimplex (shift pass) is not modelled: its answer is certified per call by the proved checker ShiftLp.shift_cert_ok "
                                                         "(needs the hook coloquinte_verif_shift_hook in /repo; without it only 'value after <= value before' is observed)",
                                                         "candidate positions of the best-move calls are taken from the implementation (theorems hold for every candidate list)"],
+                "composition_statements_on_exposed_states": cc.summary(e1), "composition_paired_model_tie": cc.summary(e2),
                 "evaluations": dres["runs"] + cres["runs"],
                 "distinct_nontrivial": dres["nontrivial"] + cres["hpwl_improved_runs"],
                 "rule": "DO: random circuits (C01 generator with nets), legalized, then 1-8 random optimiser ops on DetailedPlacer (best-move calls with random "
